@@ -294,10 +294,10 @@ def canon_drops(d):
     return ",".join("%d/%d" % (a, b) for a, b in out) if out else "-"
 
 
-def norm_line(l):
-    # the ordering token of atomic labels is compared separately (C07)
+def norm_line(l, keep_ord=False):
+    # the ordering token of atomic labels is compared for C07 only (a strengthened ordering elsewhere is not an alarm)
     m = re.match(r"^(L \d+ atom \S+ \S+ \d+ \d+) \S+$", l)
-    if m:
+    if m and not keep_ord:
         return m.group(1)
     m = re.match(r"^(E .* \| )(\S+)$", l)
     if m:
@@ -305,9 +305,9 @@ def norm_line(l):
     return l
 
 
-def first_diff(model_lines, impl_lines):
-    m = [norm_line(l) for l in model_lines if not l.startswith("sched ")]
-    i = [norm_line(l) for l in impl_lines if not l.startswith("sched ")]
+def first_diff(model_lines, impl_lines, keep_ord=False):
+    m = [norm_line(l, keep_ord) for l in model_lines if not l.startswith("sched ")]
+    i = [norm_line(l, keep_ord) for l in impl_lines if not l.startswith("sched ")]
     for k in range(max(len(m), len(i))):
         a = m[k] if k < len(m) else "<nothing>"
         b = i[k] if k < len(i) else "<nothing>"
@@ -333,23 +333,40 @@ def load_known():
     return json.load(open(p)).get("findings", [])
 
 
+def trace_classes(lines):
+    """classes of a violation that can be read off its implementation trace"""
+    cl = set()
+    for l in lines or []:
+        m = re.match(r"^L \d+ atom (\S+) add (\d+) (\d+)", l)
+        if m and int(m.group(2)) + int(m.group(3)) >= (1 << 64):
+            cl.add("reserved-counter-wrap" if m.group(1) == "C" else "yielded-counter-wrap")
+    return cl
+
+
 def known_match(prop, viol, known):
-    """a violation matches a listed finding if the finding's matcher accepts its case"""
+    """a violation matches a listed finding only if EVERY key of the finding's matcher is understood and accepts it
+    (an unknown key never matches: a finding must not swallow violations it was not written for)"""
     for k in known:
-        if k.get("status") != "open" or k.get("property") != prop:
+        if k.get("status") != "open" or (k.get("property") != prop and prop not in k.get("also", [])):
             continue
         m = k.get("match", {})
+        if not m:
+            continue
         case = viol.get("case") or {}
         env = case.get("env", {})
         ok = True
         for key, val in m.items():
-            if key == "kind" and env.get("kind") != val:
+            if key == "kind":
+                ok = ok and env.get("kind") == val
+            elif key == "checker":
+                ok = ok and viol.get("checker") == val
+            elif key == "probe":
+                ok = ok and viol.get("probe") == val
+            elif key == "class":
+                ok = ok and val in trace_classes(viol.get("impl_trace"))
+            else:
                 ok = False
-            if key == "checker" and viol.get("checker") != val:
-                ok = False
-            if key == "probe" and viol.get("probe") != val:
-                ok = False
-        if ok and m:
+        if ok:
             return k
     return None
 
@@ -556,7 +573,7 @@ def explore(prop, cfg, cases, binp, label, props_chk, out):
             rec["model_trace"] = ml
             out["divergences"].append(rec)
             continue
-        d = first_diff(ml, il)
+        d = first_diff(ml, il, keep_ord=(prop == "C07"))
         if d is not None or fl:
             rec["what"] = ("model and implementation differ at line %d: model `%s` / implementation `%s`" % d) if d else ("flags: " + "; ".join(fl))
             rec["impl_trace"] = il
